@@ -259,6 +259,9 @@ pub enum Src {
   Create(Vec<NoteSpec>),
   Of(i64),
   OfFn(i64),
+  /// `from_iter` over a collection whose `IntoIterator::into_iter` is counted
+  /// (as a source closure call): it must run at subscription, once each
+  IntoIter(Vec<i64>),
   Start(i64),
   OfOption(Option<i64>),
   OfResult(Result<i64, E>),
@@ -273,6 +276,8 @@ pub enum Src {
   TimerAt(i64, i64),
   /// from_stream over an always-ready counting stream of `n` items
   StreamCount(usize),
+  /// `from_stream_result` over the same poll-counting stream (every item `Ok`)
+  StreamResultCount(usize),
   /// from_iter(0..n) over a pull-counting iterator
   IterCount(usize),
   /// from_future over a cloneable future that counts its runs (`src_calls`)
@@ -333,6 +338,7 @@ impl Pipe {
           | Src::Timer(..)
           | Src::TimerAt(..)
           | Src::StreamCount(_)
+          | Src::StreamResultCount(_)
           | Src::FromFuture(_)
           | Src::FromFutureResult(_)
       ),
@@ -553,6 +559,21 @@ fn inf<T>(e: Infallible) -> T {
   match e {}
 }
 
+/// collection whose conversion into an iterator is observable
+#[derive(Clone)]
+pub struct CountingColl {
+  items: Vec<V>,
+  calls: Arc<AtomicUsize>,
+}
+impl IntoIterator for CountingColl {
+  type Item = V;
+  type IntoIter = std::vec::IntoIter<V>;
+  fn into_iter(self) -> Self::IntoIter {
+    self.calls.fetch_add(1, Ordering::SeqCst);
+    self.items.into_iter()
+  }
+}
+
 /// iterator that counts how many elements were pulled from it
 #[derive(Clone)]
 pub struct CountingIter {
@@ -611,6 +632,19 @@ impl futures::Stream for CountingStream {
     } else {
       std::task::Poll::Ready(None)
     }
+  }
+}
+
+/// the same stream with every item wrapped in `Ok` (for `from_stream_result`)
+#[derive(Clone)]
+pub struct CountingResultStream(CountingStream);
+impl futures::Stream for CountingResultStream {
+  type Item = Result<V, E>;
+  fn poll_next(
+    mut self: std::pin::Pin<&mut Self>,
+    cx: &mut std::task::Context<'_>,
+  ) -> std::task::Poll<Option<Result<V, E>>> {
+    std::pin::Pin::new(&mut self.0).poll_next(cx).map(|o| o.map(Ok))
   }
 }
 
@@ -794,6 +828,10 @@ macro_rules! build_fns {
           .box_it()
         }
         Src::Of(n) => observable::of(V::I(*n)).on_error_map(inf::<E>).box_it(),
+        Src::IntoIter(items) => {
+          let coll = CountingColl { items: items.iter().map(|n| V::I(*n)).collect(), calls: c.src_calls.clone() };
+          observable::from_iter(coll).on_error_map(inf::<E>).box_it()
+        }
         Src::OfFn(n) => {
           let (n, calls) = (*n, c.src_calls.clone());
           observable::of_fn(move || {
@@ -857,6 +895,11 @@ macro_rules! build_fns {
           let $cxs = cx;
           let st = CountingStream { i: 0, n: *n, pulls: c.pulls.clone() };
           observable::from_stream(st, $sched).on_error_map(inf::<E>).box_it()
+        }
+        Src::StreamResultCount(n) => {
+          let $cxs = cx;
+          let st = CountingResultStream(CountingStream { i: 0, n: *n, pulls: c.pulls.clone() });
+          observable::from_stream_result(st, $sched).box_it()
         }
         Src::FromFuture(v) => {
           let $cxs = cx;
